@@ -23,6 +23,17 @@ def run(ctx):
     ctx.mc("MC_Enum", "MC_Enum.cfg", timeout=900)
     tr = ctx.path("c19.ndjson")
     ctx.run_mvh(["enums", "-aux", "c19", "-out", tr, "-seed", ctx.seed, "-tier", ctx.tier])
+    # a quarter of the shipped enum types again on a 32-bit build (GOARCH=386): word-size slips in the text conversions
+    b386 = ctx.build_mvh_386()
+    tr386 = ctx.path("c19_386.ndjson")
+    ctx.run_mvh(["enums", "-aux", "c19", "-out", tr386, "-seed", ctx.seed, "-tier", ctx.tier], binary=b386, env_extra={"VERIF_ENUM_STRIDE": "4"})
+    n386 = 0
+    with open(tr, "a") as f:
+        for r in vf.read_ndjson(tr386):
+            r["type"] = "386:" + r["type"]
+            f.write(json.dumps(r) + "\n")
+            n386 += 1
+    ctx.cov["enum_types_probed_on_a_32_bit_build"] = n386
     # enum types of GENERATED dialects: grammar-made XML through the real generator, compiled into a probe binary
     from checks import c18
     ngen = 0
@@ -59,6 +70,14 @@ def run(ctx):
                 for i in idx[:40]:
                     pr = r["probes"][i - 1]
                     v = int.from_bytes(bytes(pr["v"]), "little")
+                    if r["type"].startswith("386:") and not r["bitmask"] and v >= 1 << 31:
+                        # one class of input: an ordinary enum value that does not fit a 32-bit int, on a 32-bit build
+                        ctx.finding("ENUM:%s:386:ordinary_enum_value_of_2^31_or_more" % c,
+                                    "on a 32-bit build (GOARCH=386) enum %s value %d renders %r, parses back to %d (err=%s)" % (
+                                        r["type"][4:], v, bytes(pr["text"]).decode("latin1"),
+                                        int.from_bytes(bytes(pr["back"]), "little"), pr["uerr"]),
+                                    {"goarch": "386", "type": r["type"][4:], "bitmask": False, "probe": pr, "consts": r["consts"]})
+                        continue
                     ctx.finding("ENUM:%s:%s:v=%d" % (c, r["type"], v),
                                 "enum %s value %d renders %r, parses back to %d (err=%s)" % (
                                     r["type"], v, bytes(pr["text"]).decode("latin1"),
